@@ -18,10 +18,21 @@ def internal_names():
             out.add(n.arg)
         elif isinstance(n, ast.Name) and isinstance(n.ctx, ast.Store):
             out.add(n.id)
+    # names the wrapper synthesises at run time: f-string prefixes followed by a counter (ret0, T0, default0, ...), and
+    # identifier-like string constants
+    for n in ast.walk(tree):
+        if isinstance(n, ast.JoinedStr) and n.values and isinstance(n.values[0], ast.Constant) and isinstance(n.values[0].value, str):
+            pre = n.values[0].value
+            if pre.isidentifier() and len(pre) <= 12:
+                out.update({pre + "0", pre + "1"})
+        elif isinstance(n, ast.Constant) and isinstance(n.value, str) and n.value.isidentifier() and len(n.value) <= 16:
+            out.add(n.value)
+    out.update({"ret0", "ret1", "T0", "T1", "default0", "default1"})
     return sorted(x for x in out if x.isidentifier() and not keyword.iskeyword(x) and not x.startswith("__") and x not in ("self", "cls", "_"))
 
 
 INTERNAL = internal_names()
+GENERATED = [x for x in INTERNAL if x[-1].isdigit()]
 
 
 def gen_sig(rng):
@@ -86,6 +97,10 @@ def make_calls(rng, ps):
             elif p[1] == "vk":
                 extra = [n for n in rng.sample(INTERNAL, min(4, len(INTERNAL))) if n not in [q[0] for q in ps]] if rng.random() < .6 else []
                 kwargs[extra[0] if extra else "extra_kw"] = ["int", 1]
+                if rng.random() < .7:
+                    for nm in rng.sample(GENERATED, rng.choice([1, 2, 3])):
+                        if nm not in [q[0] for q in ps]:
+                            kwargs[nm] = ["int", 2]
         calls.append({"args": args, "kwargs": kwargs, "welltyped": True, "binds": True})
     # omit defaults
     args, kwargs = [], {}
@@ -141,6 +156,11 @@ def main():
     for ps, fname, kind in fixed:
         for chk in ("typeguard", "beartype"):
             cases.append({"params": ps, "fname": fname, "callable": kind, "descriptor": "function", "checker": chk, "ret_annot": kind in ("def",), "calls": make_calls(R.rng, ps)})
+    for chk in ("typeguard", "beartype"):
+        # **kwargs keys spelled like the names the wrapper generates for its own plumbing
+        ps = [["x", "pk", False, "arr"], ["kw", "vk", False, "none"]]
+        cases.append({"params": ps, "fname": "collect", "callable": "def", "descriptor": "function", "checker": chk, "ret_annot": True,
+                      "calls": [{"args": [["arr", [4]]], "kwargs": {k: ["int", i]}, "welltyped": True, "binds": True} for i, k in enumerate(GENERATED + ["fn", "bound", "memos", "out"])]})
     cases.append({"params": [["x", "pk", False, "arr"]], "fname": "co2", "callable": "async", "descriptor": "function", "checker": "typeguard", "ret_annot": True, "calls": make_calls(R.rng, [["x", "pk", False, "arr"]])})
     for _ in range(n):
         ps = gen_sig(R.rng)
